@@ -187,21 +187,23 @@ def process_nodes_recursive(
                                     # Extract var name
                                     import re
 
+                                    # same shape as resolve_variable(): the reference may carry a fallback
                                     var_match = re.search(
-                                        r"var\((--[\w-]+)\)", raw_text_color
+                                        r"var\((--[\w-]+)(?:\s*,\s*(.*))?\)",
+                                        raw_text_color,
                                     )
-                                    if var_match:
-                                        var_name = var_match.group(1)
-                                        if var_name in variables:
-                                            # Update the variable definition
-                                            var_def = variables[var_name]
-                                            update_decl_value(
-                                                var_def["decl"], tuned_rgb
-                                            )
-                                            # Update our local map so future usages see the new value
-                                            var_def["value"] = tuned_rgb
+                                    var_name = var_match.group(1) if var_match else None
+                                    if var_name in variables:
+                                        # Update the variable definition
+                                        var_def = variables[var_name]
+                                        update_decl_value(var_def["decl"], tuned_rgb)
+                                        # Update our local map so future usages see the new value
+                                        var_def["value"] = tuned_rgb
                                     else:
-                                        pass  # Could not extract var name
+                                        # The property is not defined (its fallback supplied the
+                                        # colour): the colour lives in this declaration, write it here
+                                        update_decl_value(color_decl, tuned_rgb)
+                                        modified = True
                                 else:
                                     update_decl_value(color_decl, tuned_rgb)
                                     modified = True
